@@ -150,6 +150,11 @@ class HDriver:
                 raise X.EndOfSchedule()
 
     def on_select(self):
+        self.polls = getattr(self, 'polls', 0) + 1
+        if self.polls > 4 * len(self.events) + 40:
+            # a driver that no longer consults is_inactive / never leaves its loop: cut the run (reported as running)
+            self.snapshot = self.observe()
+            raise X.EndOfSchedule()
         if self.in_flush:
             if not self.flush_left:
                 raise X.EndOfSchedule()
